@@ -35,7 +35,7 @@ def _flag_cases(ctx):
     # all small cases over a three-flag universe, then random ones
     small = [[], [b'\\Seen'], [b'$kw0'], [b'\\Seen', b'$kw0'], [b'\\Deleted'],
              [b'\\Seen', b'\\Deleted', b'$kw0']]
-    pairs = [(a, b) for a in small for b in small] + [(fs(), fs()) for _ in range(ctx.scale(150, 3000))]
+    pairs = [(a, b) for a in small for b in small] + [(fs(), fs()) for _ in range(ctx.scale(150, 1500))]
     for a, b in pairs:
         for on, op in ops.items():
             r = op.apply(impl(a), impl(b))
@@ -43,7 +43,7 @@ def _flag_cases(ctx):
             ctx.count(('apply', on, tuple(a), tuple(b)))
     defs = [[b'\\Seen', b'\\Deleted'], [b'\\*'], [b'\\Seen', b'\\Recent'], [], R.SYS5,
             R.SYS5 + [b'$kw0'], [b'\\Recent']]
-    for d in defs + [fs() for _ in range(ctx.scale(30, 1000))]:
+    for d in defs + [fs() for _ in range(ctx.scale(30, 200))]:
         for o in small + [fs() for _ in range(4)]:
             r = PermanentFlags(impl(d)).intersect(impl(o))
             it.append(T.pair(R.enc_fset(d), R.enc_fset(o), R.enc_fset(back(r))))
@@ -86,6 +86,26 @@ def _flag_cases(ctx):
         for i in ctx.run_cases('maildir_flags', R.HEADER, 'fset * fset * fset', md,
                                'chk_maildir_flags')[:3]:
             ctx.disagreement('maildir_flags', {'case': md[i]})
+        # COPY/MOVE between folders: info letters written with one table, read with another
+        tables = [[], [b'$kw0', b'kw1'], [b'$Forwarded', b'$kw0'], [b'kw1', b'$kw0', b'NonJunk'],
+                  [b'NonJunk']]
+        mfs = []
+        for kws in tables:
+            with open(f'{d}/dovecot-keywords', 'w') as f:
+                for i, k in enumerate(kws):
+                    f.write(f'{i} {k.decode()}\n')
+            mfs.append(MaildirFlags.file_read(d))
+        cc = []
+        for a, src in enumerate(tables):
+            for b, dst in enumerate(tables):
+                for o in small + [fs() for _ in range(ctx.scale(12, 120))]:
+                    r = mfs[b].from_maildir(mfs[a].to_maildir(impl(o)))
+                    cc.append(T.pair(T.lst(R.enc_flag(k) for k in src), T.lst(R.enc_flag(k) for k in dst),
+                                     R.enc_fset(o), R.enc_fset(back(r))))
+                    ctx.count(('maildir_carry', a, b, tuple(o)))
+        for i in ctx.run_cases('maildir_carry', R.HEADER, 'list flag * list flag * fset * fset', cc,
+                               'chk_maildir_carry')[:3]:
+            ctx.disagreement('maildir_carry', {'case': cc[i]})
     finally:
         shutil.rmtree(d, ignore_errors=True)
     # FetchAttribute.set_seen for every spelling of the menu (and the RFC table)
@@ -112,7 +132,7 @@ def _flag_cases(ctx):
 
 
 async def _one_program(ctx, kind: str, seed: int, steps: int, weights: dict,
-                       first: list | None = None):
+                       first: list | None = None, final=None, observer: bool = False):
     """Run one random program; returns (env-kind, init, steps, monitor findings)."""
     import random
     rng = random.Random(f'{ctx.prop}-{ctx.seed}-{kind}-{seed}')
@@ -129,8 +149,17 @@ async def _one_program(ctx, kind: str, seed: int, steps: int, weights: dict,
         ref = R.PyRef(kind, init)
         state['ref'] = ref
         queue = list(first or [])
+        if steps <= 0:
+            steps = len(queue)
         stepsout = []
+        obs = None
         for k in range(steps):
+            if observer and k == 1 and ref.sel is not None:
+                # another session that only watches the same mailbox
+                obs = await env.env.login(env.user, env.password)
+                await obs.send(b'o1 EXAMINE ' + ref.sel[0].encode() + b'\r\n')
+            if obs is not None:
+                await obs.send(b'o2 NOOP\r\n')
             cmd = queue.pop(0) if queue else R.gen_cmd(rng, env, ref, weights, nextcid)
             if cmd['k'] == 'append' and 'cid' not in cmd:
                 cmd['cid'] = nextcid()
@@ -160,12 +189,22 @@ async def _one_program(ctx, kind: str, seed: int, steps: int, weights: dict,
             if not all(b['probe_consistent'] for b in dump):
                 state['problems'].append(('probe', 'probe_inconsistent', k, st))
                 break
-            if env.conn.exc is not None or (
-                    env.conn.closed and not all(x['out']['cond'] == 'BAD' for x in stepsout[-5:])):
+            if env.conn.exc is not None:
                 state['problems'].append(('response', 'connection_died', k, st))
                 break
-            if env.conn.closed:      # five BAD commands in a row: the server hangs up (C05/C06)
+            if out.get('bye') or env.conn.closed:
+                # five BAD commands in a row: the server says BYE and hangs up (C05/C06)
+                # (the counter is reset by OK responses only: a NO raised as an error keeps it)
+                nbad = 0
+                for x in reversed(stepsout):
+                    if x['out']['cond'] == 'OK':
+                        break
+                    nbad += x['out']['cond'] == 'BAD'
+                if nbad < 5 or out['cond'] != 'BAD':
+                    state['problems'].append(('response', 'unexpected_bye', k, st))
                 break
+        if final is not None:
+            state['problems'] += await final(env, init, stepsout)
         return env, init, stepsout, state['problems']
     finally:
         env.close()
@@ -221,14 +260,19 @@ def _replay_obj(kind, init, steps, k=None):
             'expected_dump': js(steps[-1].get('ref_dump')) if steps else None}
 
 
-def run_programs(ctx, label: str, plan: list, weights: dict, first=None) -> None:
+def run_programs(ctx, label: str, plan: list, weights: dict, first=None, final=None,
+                 observer=None, on_program=None) -> None:
     """plan: [(kind, n_programs, steps)]"""
-    cases, keep, spec_cases = [], [], []
+    cases, keep = [], []
     hist: dict = {}
     for kind, n, steps in plan:
         for i in range(n):
             f = first(i) if callable(first) else first
-            env, init, sts, problems = run_async(_one_program(ctx, kind, i, steps, weights, f))
+            env, init, sts, problems = run_async(_one_program(
+                ctx, kind, i, steps, weights, f, final,
+                observer(i) if callable(observer) else bool(observer)))
+            if on_program is not None:
+                on_program(kind, init, sts)
             for clause, cls, k, st in problems:
                 obs = {'kind': cls, 'backend': kind}
                 all_steps = sts if st in sts else sts + [st]
@@ -242,11 +286,7 @@ def run_programs(ctx, label: str, plan: list, weights: dict, first=None) -> None
             if sts:
                 cases.append(R.enc_case(env, init, sts))
                 keep.append((kind, init, sts))
-                # the Python reference's predictions, for the spec-vs-reference diff
-                ref_steps = [{'cmd': s['cmd'], 'out': s['ref_out'],
-                              'dump': [dict(b, name=b['name']) for b in s['ref_dump']]}
-                             for s in sts]
-                spec_cases.append(R.enc_case(env, init, ref_steps))
+
     ctx.extra.setdefault('command_histogram', {})[label] = hist
     if keep:
         ctx.sample({'program': [s['wire'].decode('latin-1') for s in keep[-1][2]][:8],
@@ -259,16 +299,6 @@ def run_programs(ctx, label: str, plan: list, weights: dict, first=None) -> None
         ctx.disagreement(label, {'backend': kind,
                                  'program': [s['wire'].decode('latin-1') for s in sts],
                                  'diag': _diag(ctx, cases[i])})
-    bad2 = ctx.run_cases(label + '_pyref_vs_coq', R.HEADER, 'case', spec_cases, 'chk_case',
-                         shard=25)
-    for i in bad2[:5]:
-        if i in bad:
-            continue
-        kind, init, sts = keep[i]
-        ctx.disagreement(label + '_pyref_vs_coq',
-                         {'backend': kind,
-                          'program': [s['wire'].decode('latin-1') for s in sts],
-                          'diag': _diag(ctx, spec_cases[i])})
 
 
 def _diag(ctx, case: str) -> str:
@@ -277,6 +307,145 @@ def _diag(ctx, case: str) -> str:
                            f'map (fun x => (fst (fst (fst x)), snd (fst (fst x)), snd (fst x))) '
                            f'(diag_case {case})')
     return out[-600:]
+
+
+# ------------------------------------------- maildir folders with different keyword tables
+async def _keyword_tables(ctx) -> None:
+    """COPY/MOVE between maildir folders whose dovecot-keywords files differ: a
+    keyword the destination cannot store may be dropped, but no flag may turn
+    into another one (monitor only; the model covers one shared table)."""
+    import os
+    from ..pymap_env import MaildirEnv
+    env = await MaildirEnv().start()
+    try:
+        c = await env.login()
+        await c.send(b'c CREATE Work\r\n')
+        await c.send(b'c LOGOUT\r\n')
+        base = os.path.join(env.base, 'u1')
+        tables = {'INBOX': [b'$kw0', b'kw1'], 'Work': [b'$Forwarded', b'$kw0']}
+        for name, kws in tables.items():
+            path = base if name == 'INBOX' else os.path.join(base, '.' + name)
+            with open(os.path.join(path, 'dovecot-keywords'), 'w') as f:
+                for i, k in enumerate(kws):
+                    f.write(f'{i} {k.decode()}\n')
+        c = await env.login()
+        lit = R.content(1)
+        await c.cmd(b'a APPEND INBOX ($kw0 \\Seen) ' + R.render_date(10 ** 9) + b' {%d}\r\n' % len(lit)
+                    + lit + b'\r\n')
+        await c.cmd(b'a APPEND INBOX (kw1) ' + R.render_date(10 ** 9) + b' {%d}\r\n' % len(lit)
+                    + lit + b'\r\n')
+        await c.send(b'a SELECT INBOX\r\n')
+        prog = [b'a COPY 1:2 Work\r\n', b'a MOVE 1:2 Work\r\n']
+        for line in prog:
+            await c.send(line)
+        await c.send(b'a EXAMINE Work\r\n')
+        r = await c.send(b'a FETCH 1:* FLAGS\r\n')
+        out = R.read_response(r, R.Contents(), 'other')
+        got = [sorted(u[3] - {b'\\Recent'}) for u in out['untagged'] if u[0] == 'FETCH']
+        src = [{b'$kw0', b'\\Seen'}, {b'kw1'}] * 2
+        for k, fl in enumerate(got):
+            ctx.count(('keyword_tables', k, tuple(fl)))
+            if not set(fl) <= src[k % 4]:
+                ctx.failure('contents',
+                            f'maildir: flags {sorted(src[k % 4])} arrive in a folder with another '
+                            f'keyword table as {fl}',
+                            {'backend': 'maildir', 'keyword_tables': {a: [x.decode() for x in b]
+                                                                     for a, b in tables.items()},
+                             'program': ['APPEND INBOX ($kw0 \\Seen)', 'APPEND INBOX (kw1)', 'SELECT INBOX']
+                             + [x.decode() for x in prog] + ['EXAMINE Work', 'FETCH 1:* FLAGS'],
+                             'observed_flags_in_Work': [[x.decode() for x in f] for f in got]},
+                            {'kind': 'maildir_keyword_letters', 'backend': 'maildir'})
+                break
+    finally:
+        env.close()
+
+
+# ------------------------------------------------------------------ scenarios
+def _sel(box, ro=False):
+    return {'k': 'select', 'box': box, 'ro': ro}
+
+
+def _app(box, flags=(), date=1_000_000_000):
+    fl = [R.canon_flag(f) for f in flags]
+    return {'k': 'append', 'box': box, 'flags': fl, 'spelled': list(flags), 'date': date, 'zone': 0}
+
+
+def _store(ss, op, flags, uid=False, silent=False):
+    return {'k': 'store', 'uid': uid, 'ss': ss, 'op': op, 'silent': silent,
+            'flags': [R.canon_flag(f) for f in flags], 'spelled': list(flags)}
+
+
+def _fetch(ss, attrs, uid=False):
+    return {'k': 'fetch', 'uid': uid, 'ss': ss, 'attrs': attrs}
+
+
+def _cm(k, ss, dest, uid=False):
+    return {'k': k, 'uid': uid, 'ss': ss, 'dest': dest}
+
+
+ALL = [(1, '*')]
+SETS = [[1], [4], [5], ['*'], [(1, '*')], [('*', 1)], [(3, 2)], [(2, 9)], [(9, 2)], [9],
+        [('*', '*')], [1, 1], [(1, 2), (2, 3)], [4294967295], [(4294967295, '*')], [(2, '*'), 1],
+        [(101, 103)], [(103, '*')], [('*', 102)], [104, 101], [(100, 101)], [(105, '*')], [2, 3, 4]]
+
+
+def scenarios(kind: str) -> list:
+    D, S, X = b'\\Deleted', b'\\Seen', [{'k': 'expunge', 'ss': None}]
+    out = []
+    # a message moved out of a mailbox and back (maildir: the file name comes back)
+    out.append([_app(0), _sel(0), _cm('move', ['*'], 1), _sel(1), _cm('move', ['*'], 0), _sel(0),
+                _fetch(ALL, 2), _cm('move', ALL, 1, True), _sel(1), _cm('copy', ALL, 0), _sel(0),
+                _fetch(ALL, 2, True), {'k': 'close'}])
+    # MOVE / COPY with the selected mailbox itself as destination
+    out.append([_app(0, [S]), _app(0, [D]), _sel(0), _cm('move', [1], 0), _fetch(ALL, 1),
+                _cm('copy', ALL, 0), _fetch(ALL, 2), _cm('move', ALL, 0, True), _fetch(ALL, 2),
+                _store(ALL, 'add', [D]), {'k': 'close'}, _sel(0)])
+    # \Recent: delivery into an examined / a selected / an unselected mailbox
+    out.append([_sel(1, True), _app(1), _fetch(['*'], 0), {'k': 'close'}, _app(1), _sel(1),
+                _fetch(ALL, 0), _app(1), _cm('copy', ['*'], 1), _fetch(ALL, 0), {'k': 'close'},
+                _sel(1), _fetch(ALL, 0), _sel(1, True), _sel(0), _cm('copy', [1], 1), _sel(1),
+                _fetch(ALL, 1)])
+    # implicit \Seen for every attribute list of the menu
+    prog = [_app(0), _sel(0)]
+    for a in range(len(R.FETCH_MENU)):
+        prog += [_store(['*'], 'delete', [S], silent=True), _fetch(['*'], a, uid=a % 2 == 1)]
+    out.append(prog)
+    prog = [_app(0), _sel(0, True)]
+    for a in range(len(R.FETCH_MENU)):
+        prog += [_fetch(['*'], a, uid=a % 2 == 0)]
+    out.append(prog)
+    # an emptied mailbox: '*' and 1:* on nothing
+    out.append([_sel(1), _store(ALL, 'add', [D]), X[0], _fetch(['*'], 0), _fetch(ALL, 2, True),
+                _store(['*'], 'add', [S]), _cm('copy', ['*'], 0), _cm('move', ALL, 0),
+                {'k': 'expunge', 'ss': ALL}, _app(1), _fetch(['*'], 1), {'k': 'close'}])
+    # STORE: three modes, .SILENT, keywords, \Recent, repeated flags
+    kw = [b'$kw0', b'kw1', b'\\Recent', b'\\Custom']
+    prog = [_sel(0)]
+    for op in ('replace', 'add', 'delete'):
+        for fl in ([S], [D, b'\\Flagged'], kw, [S, S], [], [b'\\SEEN', b'$KW0']):
+            prog += [_store([1, '*'], op, fl, silent=op == 'add'), _store([(2, 3)], op, fl, uid=True)]
+    prog += [_fetch(ALL, 1)]
+    out.append(prog)
+    # every shape of sequence set, as sequence numbers and as UIDs
+    prog = [_sel(0)]
+    for ss in SETS:
+        prog += [_fetch(ss, 0), _fetch(ss, 0, True)]
+    out.append(prog)
+    prog = [_app(0), _app(0), _app(0), _app(0), _sel(0), _store(ALL, 'add', [D])]
+    for ss in SETS[:12]:
+        prog += [{'k': 'expunge', 'ss': ss}, _fetch(ALL, 1)]
+    out.append(prog)
+    for ss in SETS:
+        out.append([_app(0), _app(0), _sel(0), _store(ss, 'add', [b'\\Flagged']),
+                    _cm('copy', ss, 1), _cm('copy', ss, 1, True), _cm('move', ss, 1, ss == SETS[0]),
+                    _fetch(ALL, 1)])
+    # read-only: every command after EXAMINE and in the read-only mailbox
+    for first in ([_sel(0, True)], [_sel(2)] if kind == 'dict' else [_sel(2, True)]):
+        out.append(first + [_store(ALL, 'add', [D]), _store(ALL, 'add', [S], True, True), X[0],
+                            {'k': 'expunge', 'ss': ALL}, _cm('move', ALL, 1), _cm('move', ALL, 1, True),
+                            _cm('copy', ALL, 2), _cm('copy', ALL, 1), _fetch(ALL, 4), _fetch(ALL, 9),
+                            _app(2), _app(3), {'k': 'close'}, _fetch(ALL, 0), {'k': 'close'}])
+    return out
 
 
 def run(ctx) -> None:
@@ -295,8 +464,13 @@ def run(ctx) -> None:
     ]
     ctx.check_proofs(['RefModel/Check'])
     _flag_cases(ctx)
-    nd = ctx.scale(420, 8500)
-    nm = ctx.scale(80, 1500)
+    nd = ctx.scale(360, 2400)
+    nm = ctx.scale(70, 400)
+    run_async(_keyword_tables(ctx))
+    for kind in ('dict', 'maildir'):
+        sc = scenarios(kind)
+        run_programs(ctx, f'scenarios_{kind}', [(kind, len(sc), 0)], R.C10_WEIGHTS,
+                     first=lambda i, sc=sc: sc[i])
     run_programs(ctx, 'programs', [('dict', nd, 20), ('maildir', nm, 20)], R.C10_WEIGHTS)
 
 
